@@ -142,9 +142,127 @@ def roundtrip(c):
             c.violation("c17.roundtrip_" + j["kind"], j, {"roundtrip": j})
 
 
+STORE = os.path.join(vf.ROOT, "spec", "ApiStore")
+
+
+def store_cfg(name, valid, bad, maxcalls, gen):
+    d = os.path.join(vf.WORK, "cfg")
+    os.makedirs(d, exist_ok=True)
+    p = os.path.join(d, name)
+    q = lambda xs: "{" + ", ".join('"%s"' % x for x in xs) + "}"
+    with open(p, "w") as f:
+        f.write(f'CONSTANTS\n  Pfx = {{"p1", "p6"}}\n  Pid = {{0, 1}}\n  ValidCls = {q(valid)}\n  BadCls = {q(bad)}\n  MaxCalls = {maxcalls}\n')
+        if gen:
+            f.write("SPECIFICATION GenSpec\nINVARIANTS Emit\nCHECK_DEADLOCK FALSE\n")
+        else:
+            f.write("SPECIFICATION Spec\nINVARIANTS StoredWellFormed KeyUnique\nPROPERTY RefusedIsNoOp\nCHECK_DEADLOCK FALSE\n")
+    return p
+
+
+def op_line(op):
+    if op["k"] == "add":
+        return f"add {op['pfx']} {op['pid']} {op['cls']}"
+    if op["k"] == "del":
+        return f"del {op['n']}"
+    return f"{op['k']} {op['pfx']}"
+
+
+def expected_rib(post):
+    out = {}
+    for p, paths in post["rib"].items():
+        out[p] = sorted((x["src"], x["pid"], x["cls"]) for x in paths)
+    return out
+
+
+def store_half(c):
+    valid = ["min", "full", "rr"]
+    bad_all = ["badorigin", "badseg", "longseg", "badnh", "valorigin", "oddcomm", "badfam"]
+    r = vf.tlc(STORE, "ApiStore", store_cfg("C17.store.cfg", valid, bad_all[:2], 3 if c.tier == "quick" else 4, False), workers=8, timeout=900)
+    c.add_tlc("store-design", r)
+    if r.violated:
+        c.violation("design", {"invariant": r.violated, "tlc": r.error_text[:3000]}, {"spec": "ApiStore"})
+        return
+    # transitions to replay: two valid classes + every bad class, two calls (every (state, op) pair of that model)
+    edges = []
+    for bad in ([bad_all[:4], bad_all[4:]]):
+        g = vf.tlc(STORE, "ApiStoreMC", store_cfg("C17.store.gen.cfg", ["full", "rr"] if bad[0] == "badorigin" else ["min", "full"], bad, 2, True),
+                   workers=8, timeout=900, want_edges=True, quiet=True)
+        edges += g.edges
+    budget = None
+    if c.tier == "thorough":
+        g = vf.tlc(STORE, "ApiStoreMC", store_cfg("C17.store.gen3.cfg", ["min", "full", "rr"], ["badseg"], 3, True), workers=8, timeout=1200,
+                   want_edges=True, quiet=True)
+        edges += g.edges
+        budget = 250000
+    init = vf.canon({"rib": {"p1": [], "p6": []}, "issued": []})
+    seqs, covered, total = vf.cover_sequences(edges, init_key=init, max_len=40, seed=c.seed, budget=budget)
+    inp = os.path.join(vf.WORK, "C17.store.in")
+    outp = os.path.join(vf.WORK, "C17.store.out")
+    with open(inp, "w") as f:
+        for i, sq in enumerate(seqs):
+            f.write(f"seq {i}\n")
+            for ei in sq:
+                f.write(op_line(edges[ei]["op"]) + "\n")
+    if os.path.exists(outp):
+        os.remove(outp)
+    rc, out = vf.daemon_test("event::verif_harness::apistore_replay", env={"VERIF_IN": inp, "VERIF_OUT": outp}, timeout=1500)
+    if rc != 0 or not os.path.exists(outp):
+        raise vf.ToolError(f"apistore_replay failed rc={rc}: {out[-3000:]}")
+    lines = vf.read_jsonl(outp)
+    k = 0
+    steps = 0
+    seen = set()
+    for i, sq in enumerate(seqs):
+        assert "seq" in lines[k], lines[k]
+        k += 1
+        nxt = k + len(sq)
+        hist = []
+        for ei in sq:
+            e = edges[ei]
+            got = lines[k]
+            k += 1
+            hist.append(op_line(e["op"]))
+            if got["res"] == "skipped":
+                continue
+            steps += 1
+            bad = None
+            if got["res"] == "panic":
+                bad = ("panic", got.get("note", ""))
+            elif got["res"] != e["obs"]:
+                bad = ("result", f"model {e['obs']}, implementation {got['res']}")
+            else:
+                exp = expected_rib(e["post"])
+                for p in exp:
+                    shown = sorted((x["src"], x["pid"], x["cls"]) for x in got["rib"][p]["shown"])
+                    held = sorted((x["src"], x["pid"], x["cls"]) for x in got["rib"][p]["held"])
+                    if held != exp[p]:
+                        bad = ("stored", f"{p}: model {exp[p]}, table {held}")
+                    elif shown != exp[p]:
+                        bad = ("shown", f"{p}: model {exp[p]}, ListPath {shown}")
+                    elif any(x["nh"] != "ok" for x in got["rib"][p]["held"]):
+                        bad = ("nexthop", f"{p}: {got['rib'][p]['held']}")
+                    if bad:
+                        break
+            if bad:
+                sig = (bad[0], e["op"].get("cls"), e["op"]["k"])
+                if sig not in seen:
+                    seen.add(sig)
+                    c.violation("c17.store_" + bad[0], {"what": bad[1], "op": e["op"], "history": hist[-12:]},
+                                {"spec": "ApiStore", "ops": list(hist)})
+                break
+        k = nxt
+    c.cov["parts"]["store"] = {"model_transitions": total, "replayed": covered, "sequences": len(seqs), "steps": steps}
+    c.cov["traces_validated_against_impl"] += len(seqs)
+    c.cov["evaluations"] += steps
+    c.cov["distinct_nontrivial"] += covered
+    if seqs:
+        c.sample([op_line(edges[ei]["op"]) for ei in seqs[0][:12]])
+
+
 def main(c):
     value_half(c)
     roundtrip(c)
+    store_half(c)
     c.cov["exhaustive"] = False
     c.cov["rule"] = ("every case of ApiValue.tla (attribute kind x field classes, NLRI kind x family x field classes) converted "
                      "by the real code and validated by ApiValueTrace.tla; round trip of every sample / wire-decoded attribute, "
